@@ -31,7 +31,8 @@ CONSTANTS
                   \*   "cancel_eof": the body ends cleanly at the very instant the context is cancelled
                   \*   "errctx": a read error that is a context error (a transport's own deadline) while the
                   \*   request's context is alive - an ordinary, retryable read error
-    Outcomes,     \* what an attempt may meet: subset of {"transport", "transport_ctx", "reject", "stream", "cancel_do"}
+    Outcomes,     \* what an attempt may meet: subset of {"transport", "transport_ctx", "reject", "reject_temp", "stream", "cancel_do"}
+                  \*   "reject_temp": the validator's error calls itself temporary (Temporary() / Timeout() true): a verdict all the same
                   \*   "transport_ctx": Do fails with a deadline error that is not the request context's
     MaxAttempts,  \* scripted attempts per history; the attempt after the last one meets a cancelled context
     CancelInWait  \* TRUE: a cancellation may also arrive during a wait
@@ -110,7 +111,7 @@ Do(o, body, end) ==
           /\ hist' = Append(hist, [o |-> o, body |-> body, end |-> end])
           /\ CASE o \in {"transport", "transport_ctx"} -> /\ curErr' = o /\ pc' = "next" /\ UNCHANGED <<cur, result>>
                [] o = "cancel_do" -> /\ Done(R("ctx")) /\ UNCHANGED <<cur, curErr>>
-               [] o = "reject"    -> /\ Done(R("validator")) /\ UNCHANGED <<cur, curErr>>
+               [] o \in {"reject", "reject_temp"} -> /\ Done(R("validator")) /\ UNCHANGED <<cur, curErr>>
                [] o = "stream"    -> /\ cur' = [body |-> body, end |-> end, ctxdone |-> FALSE] /\ pc' = "read" /\ UNCHANGED <<curErr, result>>
     /\ UNCHANGED <<cfg, lastEventID, isRetry, interval, numRetries, everConnected, reqs, events, waits>>
 
@@ -190,13 +191,13 @@ Reason ==
     pc = "done" =>
       /\ result.kind \in {"ctx", "validator", "nogetbody", "getbodyerr", "exhausted"}
       /\ (result.kind = "ctx" <=> (Cancelled \/ attempts > MaxAttempts))
-      /\ (result.kind = "validator" => hist[Len(hist)].o = "reject")
+      /\ (result.kind = "validator" => hist[Len(hist)].o \in {"reject", "reject_temp"})
       /\ (result.kind \in {"nogetbody", "getbodyerr"} => attempts >= 1 /\ cfg.body \in {"nogetbody", "failgetbody"})
       /\ (result.kind = "exhausted" =>
             /\ result.err \in {"transport", "transport_ctx", "eof", "unexpected_eof", "boom", "errctx", "wrapeof"}
             /\ (cfg.maxRetries < 0 \/ numRetries = cfg.maxRetries))
 \* C11: a permanent failure is never followed by another attempt; a retryable one always by BackoffNext
-NoRetryAfterPermanent == \A i \in 1..(Len(hist) - 1) : hist[i].o \notin {"reject", "cancel_do", "cancel_wait"}
+NoRetryAfterPermanent == \A i \in 1..(Len(hist) - 1) : hist[i].o \notin {"reject", "reject_temp", "cancel_do", "cancel_wait"}
 \* C12: at most MaxRetries waits in a row without a successful connection in between (none if negative)
 RetryCount == /\ (cfg.maxRetries < 0 => waits = <<>>)
               /\ (cfg.maxRetries > 0 => numRetries <= cfg.maxRetries)
